@@ -7,9 +7,15 @@ allocation. The theorems hold for every word table `np` (native words are arbitr
 the interpreter's primitives), every opcode, every machine satisfying the structural invariant `WF`,
 and every number of steps — including steps that fail midway.
 
+Whole sources (section Sources): `source_counts_against_the_limit`, `history_counts_against_the_limit` — over any
+history of sources on the session model (Model/Session.lean), built, rejected and unwound, or failed at run time, with
+everything their meta blocks execute while they are being built, the meter never goes down and never passes the limit;
+these need no well-formedness hypothesis (Proofs/VMMeter.lean, SessionMeter.lean).
+
 The set_*_limit calls themselves are `{ m with insnLimit := …, meter := 0 }` etc.; variables are
 allocated while a source is built (`allocHeap`), never by a running instruction.
 -/
+import XehModel.Proofs.SessionMeter
 import XehModel.Proofs.VMRev2
 import XehModel.Props.C02
 
@@ -120,5 +126,80 @@ example : (step (fun _ => none) ({ code := [.loadI64 1, .jump (-1)], insnLimit :
 /-- an endless, stack-flooding loop under N = 3, S = 1: the second push fails, the stack holds 1 cell -/
 example : (Mach.run (fun _ => none) 10 ({ code := [.loadI64 1, .jump (-1)], insnLimit := some 3, stackLimit := some 1 } : Mach)).map
     (fun r => (r.1, r.2.ds.length, r.2.meter)) = some (.err (limitMsg "stack" 1), 1, 3) := by decide
+
+/-! ### whole sources: what is executed while a source is being BUILT counts too, also when the source is rejected -/
+section Sources
+open Xeh.Session
+
+/-- the session after a source, whatever became of it (built and run, rejected and unwound, failed at run time);
+    `none` when the model has no answer (a word outside it, the fuel of the model's run) -/
+def after : Sess.BRes → Option Sess
+  | .done s => some s
+  | .rejected _ s => some s
+  | .failed _ s => some s
+  | .panic _ s => some s
+  | _ => none
+
+/-- **one source under an instruction limit**: afterwards the limit is what it was, the meter has not gone down —
+    in particular a rejected source does not get back what its meta blocks executed — and it has not passed the
+    limit.  Every machine state, every source, every mode; no well-formedness hypothesis. -/
+theorem source_counts_against_the_limit (fuel : Nat) (mode : Mode) (toks : List Compile.Tok) (s s' : Sess)
+    (h : after (s.buildSource fuel mode toks) = some s') :
+    s'.m.insnLimit = s.m.insnLimit ∧ s.m.meter ≤ s'.m.meter ∧
+    ∀ N, s.m.insnLimit = some N → s.m.meter ≤ N → s'.m.meter ≤ N := by
+  have b := buildSource_meter fuel mode toks s
+  revert b h
+  cases s.buildSource fuel mode toks with
+  | done x => intro h b; cases h; exact ⟨b.limit, b.mono, b.bound⟩
+  | rejected e x => intro h b; cases h; exact ⟨b.limit, b.mono, b.bound⟩
+  | failed e x => intro h b; cases h; exact ⟨b.limit, b.mono, b.bound⟩
+  | panic p x => intro h b; cases h; exact ⟨b.limit, b.mono, b.bound⟩
+  | unsupported u => intro h; cases h
+  | timeout => intro h; cases h
+
+/-- a history of sources submitted one after the other to the same interpreter -/
+def history (fuel : Nat) : List (Mode × List Compile.Tok) → Sess → Option Sess
+  | [], s => some s
+  | (mode, toks) :: rest, s =>
+    match after (s.buildSource fuel mode toks) with
+    | some s' => history fuel rest s'
+    | none => none
+
+/-- **any history of sources**: with the limit set to N and the meter at most N, the meter is at most N afterwards
+    and never went down: at most N instructions execute after the limit is set, however the work is spread over
+    sources that build, fail or are rejected -/
+theorem history_counts_against_the_limit (fuel : Nat) (srcs : List (Mode × List Compile.Tok)) :
+    ∀ (s s' : Sess), history fuel srcs s = some s' →
+      s'.m.insnLimit = s.m.insnLimit ∧ s.m.meter ≤ s'.m.meter ∧
+      ∀ N, s.m.insnLimit = some N → s.m.meter ≤ N → s'.m.meter ≤ N := by
+  induction srcs with
+  | nil => intro s s' h; cases h; exact ⟨rfl, Nat.le_refl _, fun _ _ h => h⟩
+  | cons x rest ih =>
+    intro s s' h
+    obtain ⟨mode, toks⟩ := x
+    simp only [history] at h
+    split at h
+    · rename_i s1 h1
+      obtain ⟨a1, a2, a3⟩ := source_counts_against_the_limit fuel mode toks s s1 h1
+      obtain ⟨b1, b2, b3⟩ := ih s1 s' h
+      exact ⟨b1.trans a1, Nat.le_trans a2 b2, fun N hN hm => b3 N (a1 ▸ hN) (a3 N hN hm)⟩
+    · cases h
+
+/-- `State::run` itself, any machine (no well-formedness needed for the meter) -/
+theorem run_counts_against_the_limit (fuel : Nat) (m : Mach) (r : R Unit) (h : Mach.run np fuel m = some r) :
+    r.2.insnLimit = m.insnLimit ∧ m.meter ≤ r.2.meter ∧ ∀ N, m.insnLimit = some N → m.meter ≤ N → r.2.meter ≤ N := by
+  have b := Mach.run_mle np fuel m r h
+  exact ⟨b.limit, b.mono, b.bound⟩
+
+/-- non-vacuity, in the situation the property is about: limit 10; a source whose meta block executes four
+    instructions and which is then rejected (unknown word `foo`): what it compiled is gone (code length 0 again), the
+    four instructions stay counted -/
+example :
+    (after (({ m := { insnLimit := some 10, dict := [("#(", .native true "#("), ("#)", .native true "#)"),
+                                                     ("drop", .native false "drop")] } } : Sess).buildSource 100 .eval
+      [.word "#(", .lit (.int 1), .lit (.int 2), .word "drop", .word "drop", .word "#)", .word "foo"])).map
+      (fun s => (s.m.meter, s.m.code.length, s.m.insnLimit)) = some (4, 0, some 10) := by decide +kernel
+
+end Sources
 
 end Xeh.C14
